@@ -8597,6 +8597,41 @@ let lcp_all = function
 let completer_update u start elected =
   ebind eget (fun s -> lb_changes u (replace start s.e_line.pos elected))
 
+(** val show_candidate :
+    uData -> nat -> str list -> (str * nat) -> nat -> unit e **)
+
+let show_candidate u start cands backup0 i =
+  if Nat.ltb i (length cands)
+  then (match nth_error cands i with
+        | Some c -> completer_update u start c
+        | None -> eret ())
+  else lb_changes u (update (fst backup0) (snd backup0))
+
+(** val circular_branch :
+    uData -> config -> (nat -> cmd option e) -> str list -> (str * nat) ->
+    nat -> nat -> cmd -> cmd option e **)
+
+let circular_branch u cfg rec0 cands backup0 mark i c = match c with
+| CAbort ->
+  ebind
+    (if Nat.ltb i (length cands)
+     then ebind (lb_changes u (update (fst backup0) (snd backup0))) (fun _ ->
+            refresh_line u cfg)
+     else eret ()) (fun _ ->
+    ebind eget (fun s ->
+      ebind (set_changes (cs_truncate s.e_changes mark)) (fun _ -> eret None)))
+| CComplete ->
+  let i' = Nat.modulo (add i (S O)) (add (length cands) (S O)) in
+  ebind (if Nat.eqb i' (length cands) then beep else eret ()) (fun _ ->
+    rec0 i')
+| CCompleteBackward ->
+  ebind (if Nat.eqb i O then beep else eret ()) (fun _ ->
+    rec0
+      (if Nat.eqb i O
+       then length cands
+       else Nat.modulo (sub i (S O)) (add (length cands) (S O))))
+| _ -> ebind changes_end (fun _ -> eret (Some c))
+
 (** val complete_circular :
     uData -> config -> nat -> nat -> str list -> (str * nat) -> nat -> nat ->
     cmd option e **)
@@ -8605,35 +8640,12 @@ let rec complete_circular u cfg fuel start cands backup0 mark i =
   match fuel with
   | O -> efuel
   | S f ->
-    ebind
-      (if Nat.ltb i (length cands)
-       then (match nth_error cands i with
-             | Some c -> completer_update u start c
-             | None -> eret ())
-       else lb_changes u (update (fst backup0) (snd backup0))) (fun _ ->
+    ebind (show_candidate u start cands backup0 i) (fun _ ->
       ebind (refresh_line u cfg) (fun _ ->
         ebind (next_cmd u cfg f true) (fun c ->
-          match c with
-          | CAbort ->
-            ebind
-              (if Nat.ltb i (length cands)
-               then ebind (lb_changes u (update (fst backup0) (snd backup0)))
-                      (fun _ -> refresh_line u cfg)
-               else eret ()) (fun _ ->
-              ebind eget (fun s ->
-                ebind (set_changes (cs_truncate s.e_changes mark)) (fun _ ->
-                  eret None)))
-          | CComplete ->
-            let i' = Nat.modulo (add i (S O)) (add (length cands) (S O)) in
-            ebind (if Nat.eqb i' (length cands) then beep else eret ())
-              (fun _ -> complete_circular u cfg f start cands backup0 mark i')
-          | CCompleteBackward ->
-            ebind (if Nat.eqb i O then beep else eret ()) (fun _ ->
-              complete_circular u cfg f start cands backup0 mark
-                (if Nat.eqb i O
-                 then length cands
-                 else Nat.modulo (sub i (S O)) (add (length cands) (S O))))
-          | _ -> ebind changes_end (fun _ -> eret (Some c)))))
+          circular_branch u cfg (fun i' ->
+            complete_circular u cfg f start cands backup0 mark i') cands
+            backup0 mark i c)))
 
 (** val msg_display_all : nat -> str **)
 
@@ -8986,6 +8998,45 @@ let search_prompt success term =
       (app term ((Npos (XI (XI (XI (XO (XO XH)))))) :: ((Npos (XO (XI (XO (XI
         (XI XH)))))) :: ((Npos (XO (XO (XO (XO (XO XH)))))) :: [])))))
 
+(** val isearch_branch :
+    uData -> config -> (str -> nat -> sdir -> bool -> cmd option e) ->
+    (str * nat) -> nat -> str -> nat -> sdir -> bool -> cmd -> cmd option e **)
+
+let isearch_branch u cfg rec0 backup0 mark term idx d success c =
+  ebind eget (fun s ->
+    let do_search = fun term' idx' d' ->
+      match h_search (hist_of s) term' idx' d' with
+      | Some p1 ->
+        let (p2, entry) = p1 in
+        let (i, p) = p2 in
+        ebind (lb_changes u (update entry p)) (fun _ -> rec0 term' i d' true)
+      | None -> rec0 term' idx' d' false
+    in
+    (match c with
+     | CAbort ->
+       ebind (lb_changes u (update (fst backup0) (snd backup0))) (fun _ ->
+         ebind (refresh_line u cfg) (fun _ ->
+           ebind eget (fun s1 ->
+             ebind (set_changes (cs_truncate s1.e_changes mark)) (fun _ ->
+               eret None))))
+     | CForwardSearchHistory ->
+       if Nat.ltb idx (sub (hlen_e s) (S O))
+       then do_search term (S idx) Forward
+       else rec0 term idx Forward false
+     | CKill m0 ->
+       (match m0 with
+        | MBackwardChar _ -> rec0 (removelast term) idx d success
+        | _ -> ebind changes_end (fun _ -> eret (Some c)))
+     | CMove _ ->
+       ebind (refresh_line u cfg) (fun _ ->
+         ebind changes_end (fun _ -> eret (Some c)))
+     | CReverseSearchHistory ->
+       if Nat.ltb O idx
+       then do_search term (sub idx (S O)) Reverse
+       else rec0 term idx Reverse false
+     | CSelfInsert (_, ch) -> do_search (app term (ch :: [])) idx d
+     | _ -> ebind changes_end (fun _ -> eret (Some c))))
+
 (** val isearch_loop :
     uData -> config -> nat -> (str * nat) -> nat -> str -> nat -> sdir ->
     bool -> cmd option e **)
@@ -8997,43 +9048,9 @@ let rec isearch_loop u cfg fuel backup0 mark term idx d success =
     ebind (refresh_prompt_and_line u cfg (search_prompt success term))
       (fun _ ->
       ebind (next_cmd u cfg f true) (fun c ->
-        ebind eget (fun s ->
-          let do_search = fun term' idx' d' ->
-            match h_search (hist_of s) term' idx' d' with
-            | Some p1 ->
-              let (p2, entry) = p1 in
-              let (i, p) = p2 in
-              ebind (lb_changes u (update entry p)) (fun _ ->
-                isearch_loop u cfg f backup0 mark term' i d' true)
-            | None -> isearch_loop u cfg f backup0 mark term' idx' d' false
-          in
-          (match c with
-           | CAbort ->
-             ebind (lb_changes u (update (fst backup0) (snd backup0)))
-               (fun _ ->
-               ebind (refresh_line u cfg) (fun _ ->
-                 ebind eget (fun s1 ->
-                   ebind (set_changes (cs_truncate s1.e_changes mark))
-                     (fun _ -> eret None))))
-           | CForwardSearchHistory ->
-             if Nat.ltb idx (sub (hlen_e s) (S O))
-             then do_search term (S idx) Forward
-             else isearch_loop u cfg f backup0 mark term idx Forward false
-           | CKill m0 ->
-             (match m0 with
-              | MBackwardChar _ ->
-                isearch_loop u cfg f backup0 mark (removelast term) idx d
-                  success
-              | _ -> ebind changes_end (fun _ -> eret (Some c)))
-           | CMove _ ->
-             ebind (refresh_line u cfg) (fun _ ->
-               ebind changes_end (fun _ -> eret (Some c)))
-           | CReverseSearchHistory ->
-             if Nat.ltb O idx
-             then do_search term (sub idx (S O)) Reverse
-             else isearch_loop u cfg f backup0 mark term idx Reverse false
-           | CSelfInsert (_, ch) -> do_search (app term (ch :: [])) idx d
-           | _ -> ebind changes_end (fun _ -> eret (Some c))))))
+        isearch_branch u cfg (fun t i d' su ->
+          isearch_loop u cfg f backup0 mark t i d' su) backup0 mark term idx
+          d success c))
 
 (** val incremental_search : uData -> config -> nat -> cmd option e **)
 
